@@ -14,6 +14,10 @@
                   `_gather` (asynq_to_async.py:32-70) and the `_asyncio_mode` ContextVar with
                   `AsyncioMode.__enter__/__exit__` (asynq_to_async.py:24-29, 73-90).
 
+   (iii) [driveH] refines (ii): the token of `with AsyncioMode():` lives in an AsyncioMode object on a
+                  heap shared by all Tasks; one new object per activation (decorators.py:114, 137) -
+                  what matters when a function is re-entered while it runs.  [run_case] uses it.
+
    Not modelled (assumption, named in the evidence): the event loop itself.  `_gather` is taken
    to return only after every task it created has finished (asyncio.wait(ALL_COMPLETED)), every
    task runs on a copy of the context taken when `ensure_future` is called, and tasks of a
@@ -289,8 +293,142 @@ Fixpoint drive (p : prog) (fl : bool) {struct p} : tr3 :=
 Definition run_asyncio (a : leaf prog) (fl : bool) : tr3 := await_leaf drive a fl.
 Definition run_seq (a : leaf prog) : outcome * list event := eval_leaf eval a.
 
+(* ------------------------------------------------------------------ (iii) AsyncioMode instances, re-entered functions *)
+(* [drive] keeps the token of `with AsyncioMode():` in the activation itself.  In the code the token
+   lives in an attribute of an AsyncioMode *object* (asynq_to_async.py:81-90: `self._token = ...set(True)`
+   in __enter__, `if self._token: reset(self._token)` in __exit__), and objects are shared by everything
+   that runs on the loop - they are NOT copied with the context when `_gather` makes Tasks.  Which
+   object an activation uses therefore matters as soon as one function is active more than once:
+   recursion (f awaits f), a function called again by one of its callees, several activations of one
+   function in one yielded list.  The refined interpreter below makes the objects explicit.
+
+   heap: the AsyncioMode objects made so far.  [hnext] counts them, [hslots] is the log of `_token`
+   assignments, newest first ([hget i] = current `_token` of object i; None = the class attribute
+   `_token = None`).  The heap is threaded through the members of a `_gather` left to right (the
+   serialisation of the event-loop assumption); the flag is not - every member starts from the
+   caller's flag (context copy). *)
+Record heap := mkheap { hnext : nat; hslots : list (nat * bool) }.
+Definition heap0 : heap := mkheap 0 [].
+Fixpoint hfind (i : nat) (l : list (nat * bool)) : option bool :=
+  match l with
+  | [] => None
+  | jb :: r => if Nat.eqb (fst jb) i then Some (snd jb) else hfind i r
+  end.
+Definition hget (i : nat) (h : heap) : option bool := hfind i (hslots h).
+
+(* which AsyncioMode object the activation with id [id] enters.  The code evaluates `AsyncioMode()`
+   inside `wrapped`, once per call (decorators.py:114, 137): a new object every time, whatever function
+   the activation belongs to. *)
+Definition inst_policy := Z -> heap -> nat.
+Definition fresh_inst : inst_policy := fun _ h => hnext h.
+
+(* `with <object i>:`  __enter__: self._token = _asyncio_mode.set(True) *)
+Definition enterH (i : nat) (fl : bool) (h : heap) : bool * heap :=
+  (true, mkheap (S (hnext h)) ((i, fl) :: hslots h)).
+(* __exit__: if self._token: _asyncio_mode.reset(self._token) *)
+Definition exitH (i : nat) (fl : bool) (h : heap) : bool :=
+  match hget i h with Some tok => tok | None => fl end.
+
+Section Thread.
+  Variables X R : Type.
+  Variable f : X -> heap -> R * heap.
+  Fixpoint thread (l : list X) (h : heap) : list R * heap :=
+    match l with
+    | [] => ([], h)
+    | x :: r => let '(r1, h1) := f x h in let '(rs, h2) := thread r h1 in (r1 :: rs, h2)
+    end.
+End Thread.
+Arguments thread {X R} f l h.
+
+Section ResolveH.
+  Variable A : Type.
+  Variable await_leafH : A -> bool -> heap -> tr3 * heap.
+  Fixpoint resolveH (s : ystruct A) (fl : bool) (h : heap) : tr3 * heap :=
+    match s with
+    | YLeaf a => await_leafH a fl h
+    | YList l =>
+      let '(rs, h') := thread (fun x h => resolveH x fl h) l h in
+      ((match gather (map o3 rs) with inl e => Err e | inr vs => Ok (VList vs) end, fl, concat (map t3 rs)), h')
+    | YTuple l =>
+      let '(rs, h') := thread (fun x h => resolveH x fl h) l h in
+      ((match gather (map o3 rs) with inl e => Err e | inr vs => Ok (VTuple vs) end, fl, concat (map t3 rs)), h')
+    | YDict l =>
+      let '(rs, h') := thread (fun kv h => resolveH (snd kv) fl h) l h in
+      ((match gather (map o3 rs) with
+        | inl e => Err e
+        | inr vs => Ok (VDict (combine (map fst l) vs))
+        end, fl, concat (map t3 rs)), h')
+    | YNone => ((Ok VNone, fl, []), h)
+    | YBad => ((Err E_TYPEERROR, fl, []), h)
+    end.
+End ResolveH.
+Arguments resolveH {A} await_leafH s fl h.
+
+Section DriveH.
+  Variable pol : inst_policy.
+
+  Definition call_asyncioH (drv : prog -> bool -> heap -> tr3 * heap) (c : cfg) (p : prog) (fl : bool) (h : heap)
+    : tr3 * heap :=
+    match cafn c with
+    | AfNative o => ((o, fl, [EvBody (cid c) fl; EvDone (cid c) o]), h)
+    | AfNone | AfTwin =>
+      let i := pol (cid c) h in
+      let '(fl1, h1) := enterH i fl h in
+      let '(r, h2) := drv p fl1 h1 in
+      ((o3 r, exitH i (f3 r) h2, EvBody (cid c) fl1 :: t3 r ++ [EvDone (cid c) (o3 r)]), h2)
+    end.
+
+  Definition await_leafH (drv : prog -> bool -> heap -> tr3 * heap) (a : leaf prog) (fl : bool) (h : heap)
+    : tr3 * heap :=
+    match a with
+    | LConst v => ((Ok v, fl, []), h)
+    | LCall c p => call_asyncioH drv c p fl h
+    | LPxConst c v =>
+      let i := pol c h in
+      let '(fl1, h1) := enterH i fl h in
+      ((Ok v, exitH i fl1 h1, [EvBody c fl1]), h1)
+    | LPxCall c c' p =>
+      let i := pol c h in
+      let '(fl1, h1) := enterH i fl h in
+      let fl2 := exitH i fl1 h1 in
+      let '(r, h2) := call_asyncioH drv c' p fl2 h1 in
+      ((o3 r, f3 r, EvBody c fl1 :: t3 r), h2)
+    end.
+
+  Fixpoint driveH (p : prog) (fl : bool) (h : heap) {struct p} : tr3 * heap :=
+    match p with
+    | Ret v => ((Ok v, fl, []), h)
+    | Raise e => ((Err e, fl, []), h)
+    | Yield s k =>
+      let '(r, h1) := resolveH (await_leafH driveH) s fl h in
+      let '(r2, h2) := driveH (k (o3 r)) (f3 r) h1 in ((o3 r2, f3 r2, t3 r ++ t3 r2), h2)
+    | Sync allow a k =>
+      if fl then
+        if allow then let '(r2, h2) := driveH (k (Ok VNone)) fl h in ((o3 r2, f3 r2, EvSync SAllowed :: t3 r2), h2)
+        else let '(r2, h2) := driveH (k (Err E_RUNTIME)) fl h in ((o3 r2, f3 r2, EvSync SRefused :: t3 r2), h2)
+      else
+        (* flag off: the scheduler runs the callee; no AsyncioMode object is made there *)
+        let '(o, tr) := eval_leaf eval a in
+        let '(r2, h2) := driveH (k o) fl h in ((o3 r2, f3 r2, EvSync SRan :: tr ++ t3 r2), h2)
+    end.
+
+  Definition run_asyncioH (a : leaf prog) (fl : bool) (h : heap) : tr3 * heap := await_leafH driveH a fl h.
+End DriveH.
+
+(* the caller: a user coroutine that awaits root.asyncio(args) in its own context (flag fl0), keeps
+   running and then makes plain synchronous calls g(args) of @asynq(allow_sync_call=allow) functions *)
+Definition probe_prog (ap : bool * leaf prog) : prog :=
+  Sync (fst ap) (snd ap) (fun o => match o with Ok v => Ret v | Err e => Raise e end).
+Fixpoint run_probes (ps : list (bool * leaf prog)) (fl : bool) : list tr3 :=
+  match ps with
+  | [] => []
+  | ap :: r => let x := drive (probe_prog ap) fl in x :: run_probes r (f3 x)
+  end.
+
 (* what the correspondence compares: `root(args)` on the scheduler, and
-   `await root.asyncio(args)` started in a context whose flag is fl0 *)
-Definition run_case (root : leaf prog) (fl0 : bool)
-  : outcome * list event * (outcome * bool * list event) :=
-  (run_seq root, run_asyncio root fl0).
+   `await root.asyncio(args)` started in a context whose flag is fl0 (refined interpreter, the
+   code's own instance policy), followed by the caller's plain synchronous calls *)
+Definition run_case (root : leaf prog) (probes : list (bool * leaf prog)) (fl0 : bool)
+  : outcome * list event * (outcome * bool * list event) * list tr3 :=
+  let r := fst (run_asyncioH fresh_inst root fl0 heap0) in
+  (run_seq root, r, run_probes probes (f3 r)).
